@@ -177,8 +177,8 @@ fn main() {
     std::fs::copy(SETUP_BIN, format!("{}/proxy_agent_setup", sdir)).unwrap_or(0);
     let fail_verb = plan["fault"]["systemctl_fails"].as_str().unwrap_or("").to_string();
     let systemctl = format!(
-        "#!/bin/sh\nh() {{ if [ -e \"$1\" ]; then /usr/bin/sha256sum < \"$1\" | /usr/bin/cut -c1-16; else echo -; fi; }}\necho \"$* | $(h {}) $(h {}) $(h {}) $(h {})\" >> {}\nif [ \"$1\" = \"{}\" ]; then exit 1; fi\nexit 0\n",
-        EXE, CFG, EBPF, UNIT, journal, fail_verb
+        "#!/bin/sh\nh() {{ if [ -e \"$1\" ]; then /usr/bin/sha256sum < \"$1\" | /usr/bin/cut -c1-16; else echo -; fi; }}\necho \"$* | $(h {}) $(h {}) $(h {}) $(h {})\" >> {}\nif [ \"$1\" = \"{}\" ]; then exit 1; fi\n# like the real tool: verbs that name a unit fail when its unit file does not exist\ncase \"$1\" in stop) [ -e {} ] || exit 5;; disable|enable|start) [ -e {} ] || exit 1;; esac\nexit 0\n",
+        EXE, CFG, EBPF, UNIT, journal, fail_verb, UNIT, UNIT
     );
     write(&format!("{}/systemctl", bindir), systemctl.as_bytes(), true);
     let pkg_ver = plan["package_version"].as_str().unwrap_or("1.0.31");
